@@ -12,6 +12,7 @@ package main
 import (
 	"encoding/json"
 	"fmt"
+	"math/rand"
 	"net"
 	"strconv"
 	"sync"
@@ -34,12 +35,17 @@ type c02tScn struct {
 	// live_play_tcp | live_play_udp | live_record_tcp | live_record_udp | silent_play_udp |
 	// silent_record_udp | control_only_play_udp | slow_record_udp (RECORD comes more than a read
 	// timeout after ANNOUNCE, media one check period later) | repause_record_udp (RECORD, PAUSE, a
-	// pause longer than the read timeout, RECORD, media one check period later)
+	// pause longer than the read timeout, RECORD, media one check period later) |
+	// sparse_play_tcp / sparse_record_tcp (a raw peer over TCP whose signs of life - receiver
+	// reports / media - are separated by the gaps of a schedule generated from
+	// spec/ConnDeadline.tla, in tenths of T, T the timeout that applies: every gap is shorter
+	// than T, but the moments are not multiples of anything the server does)
 	Kind   string `json:"kind"`
 	IdleMs int    `json:"idle"`
 	ReadMs int    `json:"read"`
 	PerMs  int    `json:"period"`
 	ObsMs  int    `json:"obs"`
+	Gaps   []int  `json:"gaps,omitempty"`
 }
 
 func driveC02T(a *args, s *vt.Sink) error {
@@ -63,13 +69,41 @@ func driveC02T(a *args, s *vt.Sink) error {
 				scns = append(scns, c02tScn{Kind: k, IdleMs: g[0], ReadMs: g[1], PerMs: g[2], ObsMs: g[0]*2 + 1500})
 			}
 		}
+		// sign-of-life schedules of the connection-deadline model
+		if a.in != "" {
+			lines, err := readLines(a.in)
+			if err != nil {
+				return err
+			}
+			rng := rand.New(rand.NewSource(a.seed))
+			rng.Shuffle(len(lines), func(i, j int) { lines[i], lines[j] = lines[j], lines[i] })
+			if len(lines) > 160 {
+				lines = lines[:160]
+			}
+			for i, l := range lines {
+				var b struct {
+					Gaps []int `json:"gaps"`
+					T    int   `json:"t"`
+				}
+				if err := json.Unmarshal([]byte(l), &b); err != nil || b.T != 10 {
+					return fmt.Errorf("c02t: bad schedule %q", l)
+				}
+				g := grid[i%len(grid)]
+				for _, k := range []string{"sparse_play_tcp", "sparse_record_tcp"} {
+					scns = append(scns, c02tScn{Kind: k, IdleMs: g[0], ReadMs: g[1], PerMs: g[2], Gaps: b.Gaps})
+				}
+			}
+		}
 	}
 	var wg sync.WaitGroup
 	errs := make(chan error, len(scns))
+	gate := make(chan struct{}, 72) // scenarios running at the same time
 	for i := range scns {
 		wg.Add(1)
+		gate <- struct{}{}
 		go func(sc *c02tScn) {
 			defer wg.Done()
+			defer func() { <-gate }()
 			if err := c02tRun(sc, s); err != nil {
 				errs <- err
 			}
@@ -346,6 +380,120 @@ func c02tRun(sc *c02tScn, s *vt.Sink) error {
 			tr.Emit("silent", "kind", sc.Kind, "timeout", sc.IdleMs, "period", sc.PerMs, "closed", int(at.Sub(t0).Milliseconds()))
 		case <-time.After(limit):
 			tr.Emit("silent", "kind", sc.Kind, "timeout", sc.IdleMs, "period", sc.PerMs, "closed", 1000000)
+		}
+	case "sparse_play_tcp", "sparse_record_tcp":
+		peer, err := bd.Dial()
+		if err != nil {
+			return err
+		}
+		defer peer.Close()
+		peer.Timeout = 3 * time.Second
+		record := sc.Kind == "sparse_record_tcp"
+		url := bd.URL("stream")
+		T := time.Duration(sc.IdleMs) * time.Millisecond
+		sessHdr := base.Header{}
+		if record {
+			T = time.Duration(sc.ReadMs) * time.Millisecond
+			r := peer.Do(&base.Request{Method: base.Announce, URL: bed.MustURL(url),
+				Header: base.Header{"Content-Type": base.HeaderValue{"application/sdp"}}, Body: []byte(c02sdp(1))})
+			if r.Res == nil || r.Res.StatusCode != base.StatusOK {
+				return fmt.Errorf("c02t %s: ANNOUNCE failed", sc.Kind)
+			}
+			var ash headers.Session
+			if ash.Unmarshal(r.Res.Header["Session"]) == nil {
+				sessHdr = base.Header{"Session": base.HeaderValue{ash.Session}}
+			}
+		}
+		th := headers.Transport{Protocol: headers.TransportProtocolTCP, InterleavedIDs: &[2]int{0, 1}}
+		d := headers.TransportDeliveryUnicast
+		th.Delivery = &d
+		if record {
+			m := headers.TransportModeRecord
+			th.Mode = &m
+		}
+		sessHdr["Transport"] = th.Marshal()
+		r := peer.Do(&base.Request{Method: base.Setup, URL: bed.MustURL(url + "/trackID=0"), Header: sessHdr})
+		if r.Res == nil || r.Res.StatusCode != base.StatusOK {
+			return fmt.Errorf("c02t %s: SETUP failed", sc.Kind)
+		}
+		var sh headers.Session
+		if err := sh.Unmarshal(r.Res.Header["Session"]); err != nil {
+			return fmt.Errorf("c02t %s: no session id", sc.Kind)
+		}
+		start := base.Play
+		if record {
+			start = base.Record
+		}
+		r = peer.Do(&base.Request{Method: start, URL: bed.MustURL(url),
+			Header: base.Header{"Session": base.HeaderValue{sh.Session}}})
+		if r.Res == nil || r.Res.StatusCode != base.StatusOK {
+			return fmt.Errorf("c02t %s: %s failed", sc.Kind, start)
+		}
+		t0 := time.Now()
+		// a sign of life: a receiver report on the RTCP channel, or a media packet
+		frame := []byte{'$', 1, 0, 8, 0x80, 0xC9, 0, 1, 0x12, 0x34, 0xAB, 0xCD}
+		seq := 0
+		sign := func() error {
+			if record {
+				seq++
+				pk, _ := spec.Make(1, seq, 96).Marshal()
+				frame = append([]byte{'$', 0, byte(len(pk) >> 8), byte(len(pk))}, pk...)
+			}
+			peer.N.SetWriteDeadline(time.Now().Add(2 * time.Second)) //nolint:errcheck
+			_, err := peer.N.Write(frame)
+			return err
+		}
+		// what the server sends is drained, so that it never blocks on this peer
+		go func() {
+			buf := make([]byte, 4096)
+			for {
+				if _, err := peer.N.Read(buf); err != nil {
+					return
+				}
+			}
+		}()
+		gaps := sc.Gaps
+		if len(gaps) == 0 {
+			gaps = []int{4, 7, 7}
+		}
+		last, worst, expired := t0, time.Duration(0), false
+		next := t0
+		for k := 0; k < len(gaps) && !expired; k++ {
+			next = next.Add(T * time.Duration(gaps[k]) / 10)
+			select {
+			case <-closedAt:
+				expired = true
+			case <-time.After(time.Until(next)):
+				now := time.Now()
+				if g := now.Sub(last); g > worst {
+					worst = g
+				}
+				last = now
+				if sign() != nil {
+					// the server has ended the connection: the close notification follows
+					select {
+					case <-closedAt:
+					case <-time.After(2 * time.Second):
+					}
+					expired = true
+				}
+			}
+		}
+		if !expired {
+			// the session is still there half a timeout after the last sign of life
+			select {
+			case <-closedAt:
+				expired = true
+			case <-time.After(T / 2):
+			}
+		}
+		if worst > T*85/100 {
+			// this peer itself was late (machine load): the premise "keeps sending within the
+			// timeout" does not hold for this run, nothing is claimed
+			fmt.Printf("DRIVER-STAT c02t_sparse_premise_unmet=1\n")
+		} else {
+			tr.Emit("live", "kind", sc.Kind, "ms", int(time.Since(t0).Milliseconds()), "expired", expired,
+				"worst_gap_ms", int(worst.Milliseconds()))
 		}
 	default:
 		return fmt.Errorf("c02t: unknown kind %q", sc.Kind)
